@@ -53,7 +53,10 @@ def gen_scenarios(seed, tier):
         nth = rng.choice([1, 2, 3])
         kwnames = rng.sample(KWPOOL, nkw) if rng.random() < 0.6 else KWNAMES[:nkw]
         d = dict(kwnames=kwnames, npos=npos, nkw=nkw, inputs=inputs, done_before=done_before, completers=[later[k::nth] for k in range(nth)],
-                 fn_raises=rng.random() < 0.15, idx=i, seed=rng.randrange(1 << 30))
+                 fn_raises=rng.random() < 0.15, idx=i, seed=rng.randrange(1 << 30),
+                 # failing inputs whose exception OBJECT is falsy (a class defining __bool__ / __len__): "fails with that exception"
+                 # holds for them too - f_apply tests `is not None`, never the truth value
+                 falsy_exc=rng.random() < 0.25)
         d.update(schedule_modes(rng))
         yield d
 
@@ -77,7 +80,7 @@ def body_for(desc, ctx):
         npos, nkw = desc["npos"], desc["nkw"]
         n = 1 + npos + nkw
         ctx.vals = [Obj(j) for j in range(n)]
-        ctx.excs = [EXC["E0"]("in%d" % j) for j in range(n)]
+        ctx.excs = [(EXC["FalsyError"] if desc.get("falsy_exc") else EXC["E0"])("in%d" % j) for j in range(n)]
         ctx.calls = []
         ctx.ret = Obj(999)
         ctx.fn_exc = EXC["E2"]("fn")
